@@ -672,19 +672,54 @@ class Gen:
             self.emit("end")
             self.indirect.append((name, rt, argts))
         self.indirect.append(("st:bump", "int", ["int"]))
+        # a function returning a record: its result is used through a field access
+        self.emit("local Rc = @record{p: integer, q: integer}", "")
+        self.emit("local function ind_r(a0: integer): Rc", "local function ind_r(a0)")
+        self.emit("  st.a = st.a + a0")
+        self.emit("  return Rc{p = a0, q = st.b}", "  return {p = a0, q = st.b}")
+        self.emit("end")
+        self.indirect.append(("ind_r", "rec", ["int"]))
+
+    def init_shape(self, call, rt):
+        """an initializer built from every expression constructor of the shared grammar around one effectful call
+        (the call stays the only call and no variable a function may write is read next to it)"""
+        r = self.rng
+        if rt == "rec":
+            call, rt = call + r.choice([".p", ".q"]), "int"           # field access
+            self.count("shape-field")
+        k = r.random()
+        if k < 0.25:
+            return call, rt
+        if rt == "int":
+            v = self.pick_var("int", pure_only=True) or "3"
+            form = r.choice(["(%s + 1)", "(- %s)", "(~ %s)", "(%s == 7)", "tostring(%s)", "(2 * %s - V)", "(%s // 3 %% 2)", "(%s < V)", "((%s) & 255)"])
+            self.count("shape-" + form.split("%s")[0].strip("( ") + "int")
+            return (form % call).replace("V", v), ("bool" if "==" in form or "<" in form else "str" if "tostring" in form else "int")
+        if rt == "flt":
+            form = r.choice(["(%s * 0.5)", "(- %s)", "(%s < 1.0)", "(%s / 3)"])
+            self.count("shape-flt")
+            return form % call, ("bool" if "<" in form else "flt")
+        if rt == "bool":
+            b = self.pick_var("bool", pure_only=True) or "true"
+            form = r.choice(["(not %s)", "(%s and B)", "(%s or B)", "(%s == B)"])
+            self.count("shape-bool")
+            return (form % call).replace("B", b), "bool"
+        return call, rt
 
     def stmt_indirect(self):
         r = self.rng
         name, rt, argts = r.choice(self.indirect)
         args = ", ".join(self.expr(a, 2, pure=True, nocall=True)[0] for a in argts)
         k = r.random()
-        if k < 0.45:
-            # a local that is never read afterwards (not registered in the scope): the call must still happen
+        if k < 0.5 or rt == "rec":
+            # a local that is never read afterwards (not registered in the scope): the call must still happen,
+            # whatever expression it is wrapped in
             u = self.fresh("unused")
+            init, it = self.init_shape("%s(%s)" % (name, args), rt)
             if r.random() < 0.5:
-                self.emit("local %s: %s = %s(%s)" % (u, TNAME[rt], name, args), "local %s = %s(%s)" % (u, name, args))
+                self.emit("local %s: %s = %s" % (u, TNAME[it], init), "local %s = %s" % (u, init))
             else:
-                self.emit("local %s = %s(%s)" % (u, name, args))
+                self.emit("local %s = %s" % (u, init))
             self.count("unused-local-from-call")
         elif k < 0.7:
             self.emit("%s(%s)" % (name, args))
